@@ -135,8 +135,10 @@ func (k *w13Known) w13RawKnown(b []byte) string {
 			continue
 		}
 		lock := b[i+2] == 1 || b[i+2] == 8
-		if k.ackUnheld && lock && b[i+56]&0x10 != 0 && b[i+57] == 0 && b[i+58] == 0 {
-			return "LOCK frame with Expried 0 and the ack-required flag (known finding: AOF channel goroutine dereferences the freed lock)"
+		if k.ackUnheld && lock && b[i+56]&0x10 != 0 {
+			// Expried 0 (no hold) and re-entrant locks of a holder: the AOF record keeps the *Lock for an ack
+			// that nothing waits for, and the lock may be gone when the AOF channel gets to it
+			return "LOCK frame with the ack-required flag (known finding: AOF channel goroutine dereferences a freed lock)"
 		}
 		if k.recoverNil && lock && b[i+56]&0x10 != 0 && b[i+19]&0x20 != 0 {
 			return "LOCK frame with a value frame and the ack-required flag (known finding: time-out sweep recovers through a nil value)"
@@ -641,8 +643,8 @@ func (g *w13Gen) genLockFrame(depth int, embedded bool, db byte) ([]byte, string
 			timeout, tflag = uint16(g.n("lfTimerTimeoutS", 0, 1)), tflag&^0x8440
 		}
 	}
-	if tflag&0x1000 != 0 && g.known.unlockAckPending {
-		g.exclude("ack-required time-out flag 0x1000 (known finding: unlock-first of an ack-pending lock)")
+	if tflag&0x1000 != 0 && (g.known.unlockAckPending || g.known.ackUnheld) {
+		g.exclude("ack-required time-out flag 0x1000 (known findings: unlock-first of an ack-pending lock; ack tracking of a lock that is not in the ack-pending protocol)")
 		tflag &^= 0x1000
 	}
 	if withData && tflag&0x1000 != 0 && g.known.recoverNil {
